@@ -525,8 +525,23 @@ def build_jobs(ctx):
         edges = sorted(set(tuple(sorted((perm[a], perm[b]))) for a, b in edges))
         # quick tier: the routines that count walks, their consumers and the five-routine comparison
         keep = ("distance_bin", "reachdist", "distance_agree", "charpath", "efficiency_bin")
-        jobs += [dict(j, big=1) for j in jobs_for(code_matrix(rng, n, edges, True, "bin"), "bin", "diamonds", rng)
-                 if not q or j["fn"] in keep]
+        Kd = code_matrix(rng, n, edges, True, "bin")
+        jobs += [dict(j, big=1) for j in jobs_for(Kd, "bin", "diamonds", rng) if not q or j["fn"] in keep]
+        # the same chain as an integer / single-precision argument (the counts used to be held in the
+        # argument's own type: /repo fix e86d152)
+        for dt in (["int32", rng.choice(["int64", "uint8", "float32", "bool"])] if q else
+                   ["int32", "int64", "uint8", "float32", "bool"]):
+            jobs += [dict(j, big=1) for j in jobs_for(Kd, "bin", "diamonds-" + dt, rng,
+                                                      (dt, rng.choice(rc.LAYOUTS)))
+                     if j["fn"] in ("distance_bin", "reachdist", "efficiency_bin", "distance_agree")]
+    # ---- scale regime 1c: clique of 58..64 + path of 176..190 nodes: walk counts beyond float64's
+    #      1.8e308 (inf, then inf * 0 = nan, which is "nonzero"; /repo fix e86d152)
+    for k in range(1 if q else 3):
+        n, edges = clique_path(rng, rng.randint(58, 64), rng.randint(176, 190), joined=True, copies=1)
+        keep = ("distance_bin", "reachdist", "efficiency_bin") if q else \
+            ("distance_bin", "reachdist", "efficiency_bin", "distance_agree", "charpath")
+        jobs += [dict(j, big=1) for j in jobs_for(code_matrix(rng, n, edges, True, "bin"), "bin",
+                                                  "clique+path-1e308", rng) if j["fn"] in keep]
     # ---- scale regime 2: 130..300 (thorough: ..400) nodes - more than an int8 / uint8 index or hop
     #      counter holds -, rings with chords, long chains, clique + path, grids, cut into two components
     #      or not, directed or not; lengths {1,2,3}, one value, or a wide set whose path totals leave
